@@ -11,6 +11,8 @@ package main
 
 import (
 	"bytes"
+	"compress/gzip"
+	"encoding/binary"
 	"encoding/hex"
 	"fmt"
 	"io"
@@ -18,6 +20,7 @@ import (
 	"strings"
 
 	"github.com/EliCDavis/polyform/formats/splat"
+	"github.com/EliCDavis/polyform/formats/spz"
 	"github.com/EliCDavis/polyform/modeling"
 	"github.com/EliCDavis/vector/vector3"
 	"github.com/EliCDavis/vector/vector4"
@@ -246,6 +249,7 @@ func c15emitRead(c *Ctx, data []byte) {
 }
 
 func runC15(c *Ctx) {
+	c.runC15spz()
 	c.Emit("c15.const.shc0", "", F(splat.SH_C0))
 
 	sizes := []int{0, 1, 1, 2, 3}
@@ -350,5 +354,216 @@ func c15sizeClass(n int) string {
 		return "10-59"
 	default:
 		return "60+"
+	}
+}
+
+
+// ---- SPZ ---------------------------------------------------------------------------------------------
+//   c15.spz.read <hex decompressed stream>     spz.Read(gzip(stream)) vs the model's decoder, bit for bit
+//   c15.holds.spz_dequant ver n deg fb <rec hex>* ok n dim <floats>
+//        oracle: splat i of the implementation's cloud is the dequantisation of record i (theorem statement)
+
+type c15packed struct {
+	pos, color, scale, rot, sh []byte
+	alpha                      byte
+}
+
+func (p c15packed) bytes() []byte {
+	b := append([]byte{}, p.pos...)
+	b = append(b, p.alpha)
+	b = append(b, p.color...)
+	b = append(b, p.scale...)
+	b = append(b, p.rot...)
+	return append(b, p.sh...)
+}
+
+var c15spzDims = []int{0, 3, 8, 15}
+
+func (c *Ctx) c15rnd(n int) []byte {
+	b := make([]byte, n)
+	c.Rng.Read(b)
+	return b
+}
+
+func (c *Ctx) c15spzRecord(version uint32, deg uint8) c15packed {
+	pb := 9
+	if version == 1 {
+		pb = 6
+	}
+	p := c15packed{pos: c.c15rnd(pb), alpha: byte(c.Rng.Intn(256)), color: c.c15rnd(3), scale: c.c15rnd(3),
+		rot: c.c15rnd(3), sh: c.c15rnd(3 * c15spzDims[deg])}
+	// boundary patterns of the position encodings
+	for k := 0; k < 3; k++ {
+		if version == 1 {
+			switch c.Rng.Intn(8) {
+			case 0: // subnormal half
+				p.pos[2*k+1] &= 0x83
+			case 1: // inf / nan
+				p.pos[2*k+1] |= 0x7c
+				if c.Rng.Intn(2) == 0 {
+					p.pos[2*k], p.pos[2*k+1] = 0, p.pos[2*k+1]&0xfc
+				}
+			case 2:
+				p.pos[2*k], p.pos[2*k+1] = 0, byte(c.Rng.Intn(2))<<7
+			}
+		} else {
+			switch c.Rng.Intn(8) {
+			case 0:
+				copy(p.pos[3*k:], []byte{0xff, 0xff, 0x7f})
+			case 1:
+				copy(p.pos[3*k:], []byte{0x00, 0x00, 0x80})
+			case 2:
+				copy(p.pos[3*k:], []byte{0xff, 0xff, 0xff})
+			case 3:
+				copy(p.pos[3*k:], []byte{0, 0, 0})
+			}
+		}
+	}
+	return p
+}
+
+// reference encoder written from the published layout (the same one as Spz.refEncode in the model)
+func c15spzEncode(magic, version, n uint32, deg, fb, flags, reserved uint8, recs []c15packed) []byte {
+	b := make([]byte, 0, 16+len(recs)*64)
+	b = binary.LittleEndian.AppendUint32(b, magic)
+	b = binary.LittleEndian.AppendUint32(b, version)
+	b = binary.LittleEndian.AppendUint32(b, n)
+	b = append(b, deg, fb, flags, reserved)
+	for _, r := range recs {
+		b = append(b, r.pos...)
+	}
+	for _, r := range recs {
+		b = append(b, r.alpha)
+	}
+	for _, r := range recs {
+		b = append(b, r.color...)
+	}
+	for _, r := range recs {
+		b = append(b, r.scale...)
+	}
+	for _, r := range recs {
+		b = append(b, r.rot...)
+	}
+	for _, r := range recs {
+		b = append(b, r.sh...)
+	}
+	return b
+}
+
+func c15gzip(data []byte) []byte {
+	var b bytes.Buffer
+	zw := gzip.NewWriter(&b)
+	zw.Write(data)
+	zw.Close()
+	return b.Bytes()
+}
+
+func c15spzRead(stream []byte) string {
+	return Guard(func() string {
+		cl, err := spz.Read(bytes.NewReader(c15gzip(stream)))
+		if err != nil {
+			return "err"
+		}
+		m := cl.Mesh
+		n := int(cl.Header.NumPoints)
+		dim, _ := cl.Header.ShDimensions()
+		if n == 0 && m.AttributeLength() == 0 {
+			// an empty cloud carries no attribute arrays at all: every array trivially has the declared length 0
+			return fmt.Sprintf("ok 0 %d", dim)
+		}
+		fs := make([]float64, 0, n*(14+3*dim))
+		v3 := func(name string) {
+			a := m.Float3Attribute(name)
+			for i := 0; i < a.Len(); i++ {
+				fs = append(fs, a.At(i).X(), a.At(i).Y(), a.At(i).Z())
+			}
+		}
+		v3(modeling.PositionAttribute)
+		op := m.Float1Attribute(modeling.OpacityAttribute)
+		for i := 0; i < op.Len(); i++ {
+			fs = append(fs, op.At(i))
+		}
+		v3(modeling.FDCAttribute)
+		v3(modeling.ScaleAttribute)
+		rot := m.Float4Attribute(modeling.RotationAttribute)
+		for i := 0; i < rot.Len(); i++ {
+			fs = append(fs, rot.At(i).X(), rot.At(i).Y(), rot.At(i).Z(), rot.At(i).W())
+		}
+		nsh := 0
+		for m.HasFloat3Attribute(fmt.Sprintf("SH_%d", nsh)) {
+			v3(fmt.Sprintf("SH_%d", nsh))
+			nsh++
+		}
+		return strings.TrimSpace(fmt.Sprintf("ok %d %d %s", m.AttributeLength(), nsh, c15FCs(fs...)))
+	})
+}
+
+func (c *Ctx) runC15spz() {
+	fbs := []uint8{0, 1, 3, 8, 12, 16, 20, 23, 24, 31, 40, 62, 63, 64, 200}
+	for k := 0; k < c.N; k++ {
+		version := uint32(1 + k%2)
+		deg := uint8((k / 2) % 4)
+		n := []int{0, 1, 1, 2, 3, 5, 9, 17, 40}[c.Rng.Intn(9)]
+		if k < 8 {
+			n = []int{0, 1}[k%2]
+		}
+		fb := fbs[c.Rng.Intn(len(fbs))]
+		if c.Rng.Intn(3) > 0 {
+			fb = uint8(c.Rng.Intn(25))
+		}
+		recs := make([]c15packed, n)
+		for i := range recs {
+			recs[i] = c.c15spzRecord(version, deg)
+		}
+		flags := uint8(c.Rng.Intn(2))
+		stream := c15spzEncode(0x5053474e, version, uint32(n), deg, fb, flags, 0, recs)
+		c.Note(fmt.Sprintf("c15.spz.v%d.sh%d", version, deg))
+		if fb >= 63 {
+			c.Note("c15.spz.fractionalBits>=63")
+		}
+		ans := c15spzRead(stream)
+		c.Emit("c15.spz.read", c15hex(stream), ans)
+		hexes := make([]string, n)
+		for i, r := range recs {
+			hexes[i] = hex.EncodeToString(r.bytes())
+		}
+		c.Emit("c15.holds.spz_dequant", strings.TrimSpace(fmt.Sprintf("%d %d %d %d %s %s", version, n, deg, fb, strings.Join(hexes, " "), ans)), "true")
+
+		// rejected / odd streams
+		switch k % 6 {
+		case 0: // truncated inside an array
+			if len(stream) > 16 {
+				cut := stream[:16+c.Rng.Intn(len(stream)-16)]
+				c.Note("c15.spz.truncated")
+				c.Emit("c15.spz.read", c15hex(cut), c15spzRead(cut))
+			}
+		case 1: // bad magic / version / degree
+			bad := append([]byte{}, stream...)
+			switch c.Rng.Intn(4) {
+			case 0:
+				bad[0] ^= 1
+			case 1:
+				bad[4] = 0
+			case 2:
+				bad[4] = 3
+			case 3:
+				bad[12] = 4
+			}
+			c.Note("c15.spz.invalid-header")
+			c.Emit("c15.spz.read", c15hex(bad), c15spzRead(bad))
+		case 2: // trailing bytes after the last array are ignored
+			ext := append(append([]byte{}, stream...), c.c15rnd(1+c.Rng.Intn(5))...)
+			c.Note("c15.spz.trailing")
+			c.Emit("c15.spz.read", c15hex(ext), c15spzRead(ext))
+		case 3: // too many points: rejected by the header alone
+			big := c15spzEncode(0x5053474e, version, 10000001, deg, fb, 0, 0, nil)
+			c.Note("c15.spz.too-many-points")
+			c.Emit("c15.spz.read", c15hex(big), c15spzRead(big))
+		case 4: // reserved byte non-zero: not checked by Validate
+			rs := append([]byte{}, stream...)
+			rs[15] = 7
+			c.Note("c15.spz.reserved-nonzero")
+			c.Emit("c15.spz.read", c15hex(rs), c15spzRead(rs))
+		}
 	}
 }
